@@ -90,7 +90,7 @@ Definition step (cfuel : nat) (g : crules) (inp : input) (t : table) (k : nat) (
       end
   | Some (ST (TLit p)) =>
       let l := lit_units p in
-      if is_prefix l (skipn w (units inp))
+      if Nat.eqb (k mod 8) 0 && is_prefix l (skipn w (units inp))     (* byte terminals start at byte boundaries *)
       then add t (k + 8 * List.length l) (adv s [Leaf (slice_leaf inp p l)])
       else t
   | Some (ST (TBit b)) =>
@@ -100,7 +100,7 @@ Definition step (cfuel : nat) (g : crules) (inp : input) (t : table) (k : nat) (
       | None => t
       end
   | Some (ST (TRe id)) =>
-      match re_len (re_at inp) id w with
+      match (if Nat.eqb (k mod 8) 0 then re_len (re_at inp) id w else None) with
       | Some (S l) =>         (* a zero-length match is treated as no match by scan_regex *)
           let us := firstn (S l) (skipn w (units inp)) in
           add t (k + 8 * S l) (adv s [Leaf (LPay (if is_bytes inp then PBytes us else PStr us))])
